@@ -293,7 +293,7 @@ vec_reserve_grow!(vec_reserve_grow_9, 9);
 vec_reserve_grow!(vec_reserve_grow_3, 3);
 
 counting! {
-    // @h props=C04,C13,C16 tier=quick group=step allow=^overflow.@|placeholder.message.*in.function.(alloc::raw_vec::capacity_overflow|alloc::raw_vec::handle_error|core::option::expect_failed) must_fail=. note=reserve_with_unrepresentable_total_must_not_return(inline_vec)
+    // @h props=C04,C13,C16 tier=quick group=step allow=@PANIC@ must_fail=@PANIC@ note=reserve_with_unrepresentable_total_must_not_return(inline_vec)
     pub fn vec_reserve_overflow() {
         unsafe {
             let (mut m, g) = st_vec();
@@ -434,7 +434,7 @@ counting! {
 }
 
 counting! {
-    // @h props=C04,C13,C16 tier=quick group=step allow=^overflow.@|placeholder.message.*in.function.(alloc::raw_vec::capacity_overflow|alloc::raw_vec::handle_error|core::option::expect_failed) must_fail=. note=reserve_with_unrepresentable_total_must_not_return(shared_form)
+    // @h props=C04,C13,C16 tier=quick group=step allow=@PANIC@ must_fail=@PANIC@ note=reserve_with_unrepresentable_total_must_not_return(shared_form)
     pub fn arc_reserve_overflow() {
         unsafe {
             let (mut m, g) = st_arc(false);
@@ -1062,43 +1062,43 @@ macro_rules! ooc {
         }
     };
 }
-// @h props=C13,C02,C04 tier=quick group=ooc allow=(placeholder.message|assertion.failed).*in.function.bytes_mut::BytesMut::split_off must_fail=in.function.bytes_mut::BytesMut::split_off note=BytesMut::split_off(at>capacity)_vec_form
+// @h props=C13,C02,C04 tier=quick group=ooc allow=@PANIC@ must_fail=@PANIC@ note=BytesMut::split_off(at>capacity)_vec_form
 ooc!(ooc_split_off_vec, st_vec(), |m, g| {
     let at: usize = kani::any();
     kani::assume(at > g.cap);
     let _ = m.split_off(at);
 });
-// @h props=C13,C02,C04 tier=quick group=ooc allow=(placeholder.message|assertion.failed).*in.function.bytes_mut::BytesMut::split_off must_fail=in.function.bytes_mut::BytesMut::split_off note=BytesMut::split_off(at>capacity)_shared_form
+// @h props=C13,C02,C04 tier=quick group=ooc allow=@PANIC@ must_fail=@PANIC@ note=BytesMut::split_off(at>capacity)_shared_form
 ooc!(ooc_split_off_arc, st_arc(false), |m, g| {
     let at: usize = kani::any();
     kani::assume(at > g.cap);
     let _ = m.split_off(at);
 });
-// @h props=C13,C02,C04 tier=quick group=ooc allow=(placeholder.message|assertion.failed).*in.function.bytes_mut::BytesMut::split_to must_fail=in.function.bytes_mut::BytesMut::split_to note=BytesMut::split_to(at>len)_incl._len<at<=capacity
+// @h props=C13,C02,C04 tier=quick group=ooc allow=@PANIC@ must_fail=@PANIC@ note=BytesMut::split_to(at>len)_incl._len<at<=capacity
 ooc!(ooc_split_to, st_arc(false), |m, g| {
     let at: usize = kani::any();
     kani::assume(at > g.len);
     let _ = m.split_to(at);
 });
-// @h props=C13,C02,C04 tier=quick group=ooc allow=(placeholder.message|assertion.failed).*in.function.<bytes_mut::BytesMut.as.buf::buf_impl::Buf>::advance must_fail=advance note=BytesMut::advance(n>len)_incl._len<n<=capacity_vec_form
+// @h props=C13,C02,C04 tier=quick group=ooc allow=@PANIC@ must_fail=@PANIC@ note=BytesMut::advance(n>len)_incl._len<n<=capacity_vec_form
 ooc!(ooc_advance_vec, st_vec(), |m, g| {
     let n: usize = kani::any();
     kani::assume(n > g.len);
     m.advance(n);
 });
-// @h props=C13,C02,C04 tier=quick group=ooc allow=(placeholder.message|assertion.failed).*in.function.<bytes_mut::BytesMut.as.buf::buf_impl::Buf>::advance must_fail=advance note=BytesMut::advance(n>len)_shared_form
+// @h props=C13,C02,C04 tier=quick group=ooc allow=@PANIC@ must_fail=@PANIC@ note=BytesMut::advance(n>len)_shared_form
 ooc!(ooc_advance_arc, st_arc(false), |m, g| {
     let n: usize = kani::any();
     kani::assume(n > g.len);
     m.advance(n);
 });
-// @h props=C13,C02,C04 tier=quick group=ooc allow=in.function.panic_advance|(placeholder.message|assertion.failed).*advance_mut must_fail=. note=BufMut::advance_mut(cnt>spare_capacity)
+// @h props=C13,C02,C04 tier=quick group=ooc allow=@PANIC@ must_fail=@PANIC@ note=BufMut::advance_mut(cnt>spare_capacity)
 ooc!(ooc_advance_mut, st_vec(), |m, g| {
     let n: usize = kani::any();
     kani::assume(n > g.cap - g.len);
     BufMut::advance_mut(&mut m, n);
 });
-// @h props=C13,C02,C04 tier=quick group=ooc allow=^overflow.@|placeholder.message.*in.function.(alloc::raw_vec::capacity_overflow|alloc::raw_vec::handle_error|core::option::expect_failed) must_fail=. note=BytesMut::resize(len_beyond_isize::MAX)
+// @h props=C13,C02,C04 tier=quick group=ooc allow=@PANIC@ must_fail=@PANIC@ note=BytesMut::resize(len_beyond_isize::MAX)
 ooc!(ooc_resize_huge, st_vec(), |m, g| {
     let n: usize = kani::any();
     kani::assume(n > isize::MAX as usize);
